@@ -14,7 +14,9 @@ PREFIX = {"id": "id: ", "kv": "k=", "k": "", "tag": "", "ide": "id:"}
 GROUP_RE = r"id: (?P<value>[^ ]+)"
 PLAIN_RE = r"k=[^ ]+"
 STAR_RE = r"id:(?P<value>[^ ]*)"      # the group may be empty: "id:" alone, or "id: x" (the group stops at the space)
-PAT_RE = {"group": GROUP_RE, "plain": PLAIN_RE, "gstar": STAR_RE}
+ALT_RE = r"(?:id: (?P<value>[^ ]+)|k=[^ ]+)"   # the value group takes part in one alternative only
+ANCH_RE = r"^id: (?P<value>[^ ]+)"              # anchored at the start of the raw line: indented lines do not match
+PAT_RE = {"group": GROUP_RE, "plain": PLAIN_RE, "gstar": STAR_RE, "galt": ALT_RE, "ganch": ANCH_RE}
 LP = {"lower": "^[a-z]+$", "digit": "[0-9]", "startx": "^x", "min3": "^.{3,}$", "any": ".*", "lower0": "^[a-z]*$", "optx": "^(x.*)?$"}
 CODE = {"sorted": "keep-sorted", "unique": "keep-unique", "pattern": "line-pattern", "count": "line-count"}
 
@@ -28,6 +30,8 @@ def line_text(l, nested_tag=None):
         return ""
     if l["form"] == "ws":
         return " " * l["indent"]
+    if l["form"] == "uws":
+        return "\u3000\u00a0" * l["indent"]        # white space, but not ASCII
     if l["form"] == "tag":
         return nested_tag or "# <block></block>"
     sfx = "" if l["sfx"] == 0 else " #%d" % l["sfx"]
@@ -40,16 +44,24 @@ def key_span(l, pat):
     if pat == "none":
         t = text.strip()
         start = len(text) - len(text.lstrip())
-    elif pat == "group":
+    elif pat in ("group", "ganch"):
         t = key_text(l["key"])
         start = l["indent"] + len(PREFIX["id"])
     elif pat == "gstar":
         t = key_text(l["key"]) if l["form"] == "ide" else ""
         start = l["indent"] + len(PREFIX["ide"])
+    elif pat == "galt" and l["form"] == "id":
+        t = key_text(l["key"])
+        start = l["indent"] + len(PREFIX["id"])
     else:
         t = PREFIX["kv"] + key_text(l["key"])
         start = l["indent"]
     return len(text[:start].encode()) + 1, t
+
+
+def spaced(attrs):
+    """The same attributes with white space around every '=' that follows an attribute name (the tag grammar allows it)."""
+    return re.sub(r'(?<=[a-z])="', ' = "', attrs)
 
 
 def attrs_for(cfg):
@@ -77,6 +89,8 @@ def render(case, layout="line", pre_lines=0):
     """Returns (file name, text, line_of(j) -> file line of block line j (1-based))."""
     block, cfg = case["block"], case["cfg"]
     attrs = attrs_for(cfg)
+    if pre_lines == 2:
+        attrs = spaced(attrs)
     pre = "".join("x%d = 1\n" % k for k in range(pre_lines))
     if layout == "line":
         lines = [line_text(l, "# <block name=\"n%d\"> </block>" % j) for j, l in enumerate(block)]
@@ -139,11 +153,12 @@ def selfcheck_line(l, pat):
         return
     rx = re.compile(PAT_RE[pat])
     m = rx.search(text)
-    want = {"group": l["form"] == "id", "plain": l["form"] == "kv", "gstar": l["form"] in ("id", "ide")}[pat]
+    want = {"group": l["form"] == "id", "plain": l["form"] == "kv", "gstar": l["form"] in ("id", "ide"),
+            "galt": l["form"] in ("id", "kv"), "ganch": l["form"] == "id" and l["indent"] == 0}[pat]
     if bool(m) != want:
         raise vlib.ToolError("concretiser self-check: %r under %s" % (text, pat))
     if m:
-        got = m.group("value") if pat in ("group", "gstar") else m.group(0)
+        got = m.group("value") if (pat in ("group", "gstar", "ganch") or (pat == "galt" and m.group("value") is not None)) else m.group(0)
         if got != key_span(l, pat)[1]:
             raise vlib.ToolError("concretiser self-check: key of %r under %s: %r" % (text, pat, got))
 
@@ -248,8 +263,15 @@ def replay(chk, cases, layouts=("line",), cli_sample=0, trace=False, label=""):
         for ci, case in enumerate(cases):
             if layout == "same" and case["block"]:
                 continue
-            if layout == "twin" and not (case["cfg"]["kind"] == "unique" or (case["cfg"]["kind"] == "pattern" and case["cfg"]["lp"] == "digit")):
-                continue        # the inner tags must be harmless lines for the outer block's rule
+            cf = case["cfg"]
+            if cf["pat"] == "ganch" and layout in ("inline", "inline2"):
+                continue        # there the first content line starts after the tag's comment: it is never at column 0
+            if layout not in ("line", "inline") and len(cases) > 40000 and (ci + len(layout)) % 5:
+                continue        # big behaviour sets: the further layouts take every fifth behaviour
+            if layout == "twin" and not (cf["kind"] == "unique" or (cf["kind"] == "pattern" and cf["lp"] == "digit")
+                                         or (cf["kind"] == "sorted" and cf["dir"] == "asc" and cf["fmt"] == "lex" and cf["pat"] != "gstar"
+                                             and case["expect"]["v"] != "gray")):
+                continue        # the inner tags must be harmless lines for the outer block's rule ('#' sorts before every key)
             for l in case["block"]:
                 selfcheck_line(l, case["cfg"]["pat"])
             pre = ci % 3
